@@ -18,8 +18,9 @@ class World {
       // Function.prototype.toString exposes the SOURCE TEXT of a function, which any re-printing changes
       // (layout, `=> e` vs `=> { return e; }`): strings carrying function source are compared modulo layout
       // (layout, `=> e` vs `=> { return e; }`) and which, when the body holds an instrumented operation, shows the
-      // hook calls themselves: of such a string only the text before the function source is compared
-      if (v.includes('function') || v.includes('=>')) { const cut = Math.min(...['function', '=>'].map((k) => v.indexOf(k)).filter((i) => i >= 0)); v = v.slice(0, cut).replace(/\s+/g, '') + '<function source>' }
+      // hook calls themselves; glued to other text (`x + (q => q)`) not even the start of the source can be told
+      // (`"x0q => q"` vs `"x0(q)=>{…}"`): such strings are all alike for the comparison
+      if (v.includes('function') || v.includes('=>')) v = '<string carrying function source>'
       return JSON.stringify(v)
     }
     if (t === 'number' || t === 'boolean' || t === 'bigint') return t[0] + ':' + String(v)
